@@ -29,7 +29,7 @@ import common as C
 LEVEL = "model_checking"
 FRONT = os.path.join(C.SPEC, "front")
 SENS = [("MC_Outcome.tla", "MC_Outcome_sens_code.cfg"), ("MC_Outcome.tla", "MC_Outcome_sens_noEditionCheck.cfg"),
-        ("MC_Outcome.tla", "MC_Outcome_sens_noPathCheck.cfg"), ("MC_Outcome.tla", "MC_Outcome_sens_swallowCodegen.cfg"),
+        ("MC_Outcome.tla", "MC_Outcome_sens_noPathCheck.cfg"), ("MC_Outcome.tla", "MC_Outcome_sens_nightly0Panics.cfg"), ("MC_Outcome.tla", "MC_Outcome_sens_swallowCodegen.cfg"),
         ("MC_ParseStack.tla", "MC_ParseStack_sens_noGuard.cfg")]
 
 GOOD_H = "struct S { int a; char b[3]; };\nenum E { E_A, E_B = 4 };\nstatic inline int twice(int x) { return 2 * x; }\nint f(struct S *s);\n#define K 3\n"
@@ -94,18 +94,26 @@ def gen(mod, cfg, tag):
 # ---------------------------------------------------------------------------
 
 def norm_loc(loc, msg=""):
-    """panic location -> key part. Locations outside the repository (core / std / dependencies) get a slug of
-    the panic message appended, because one line of core serves many distinct failures."""
+    """panic location + message -> line-independent key part `<file>:<normalised message>`.
+    Line numbers move with every unrelated edit of the file, so they stay in the detail only. The message
+    (first line) is normalised: quoted strings -> Q, paths -> P, numbers -> N, words joined by '-',
+    at most 60 characters."""
     loc = loc.strip()
-    m = re.match(r"(.*?:\d+)(:\d+)?:?$", loc)
-    loc = m.group(1) if m else loc
+    m = re.match(r"(.*?):\d+(:\d+)?:?$", loc)
+    fil = m.group(1) if m else loc
     for pre in (C.REPO.rstrip("/") + "/", "/repo/"):
-        if loc.startswith(pre):
-            return loc[len(pre):]
-    loc = re.sub(r"^/rustc/[0-9a-f]+/library/", "rust-std/", loc)
-    loc = re.sub(r"^.*/registry/src/[^/]+/", "dep/", loc)
-    slug = "-".join(re.findall(r"[A-Za-z0-9_]+", msg)[:6]).lower()
-    return loc + (":" + slug if slug else "")
+        if fil.startswith(pre):
+            fil = fil[len(pre):]
+            break
+    fil = re.sub(r"^/rustc/[0-9a-f]+/library/", "rust-std/", fil)
+    fil = re.sub(r"^.*/registry/src/[^/]+/", "dep/", fil)
+    first = (msg.strip().split("\n") or [""])[0]
+    first = re.sub(r'"(?:\\.|[^"\\])*"?', " Q ", first)
+    first = re.sub(r"'(?:\\.|[^'\\])*'", " Q ", first)
+    first = re.sub(r"(?:/[\w.+-]+){2,}", " P ", first)
+    first = re.sub(r"\d+", "N", first)
+    slug = "-".join(re.findall(r"[A-Za-z_][A-Za-z0-9_]*", first)).lower()[:60].rstrip("-")
+    return fil + ":" + (slug or "no-message")
 
 
 def _spawn(jobs, threads, name, timeout, prefix=(), stall=None):
@@ -332,7 +340,7 @@ def vectors(res, base, rnd):
         cases.append({"id": "vec-%03d" % i, "args": args, "facts": dict(f), "predicted": v["outcome"], "dir": cd,
                       "header": hp, "shape": "fault-vector", "text": text,
                       "prefix": NOBODY if f["path"] == "denied" else (),
-                      "lib": f["flags"] != "invalid"})      # clap exits the process on a rejected flag: CLI only
+                      "lib": f["flags"] == "ok"})      # clap exits the process on a rejected flag value: CLI only
     return cases, len(vecs), unreal
 
 
